@@ -83,6 +83,44 @@ def engine_in_loop_nodes(fn):
     return out
 
 
+_BY_PAT = {}
+
+
+def _consumes(cal, pidx, depth=0):
+    """does the library function `cal` hand its pidx-th parameter AS A WHOLE to a constructor, an assignment or a container
+    (directly or through further library functions)?  Moving single members out of it does not invalidate the other members."""
+    if cal is None or cal.get("body") is None or depth > 3 or pidx >= len(cal.get("params", [])):
+        return True
+    d = cal["params"][pidx]["d"]
+    hit = [False]
+
+    def whole(a):
+        a = strip(a)
+        if isinstance(a, dict) and a.get("k") == "Call" and a.get("cname") in ("move", "forward", "conditional_forward") and len(a.get("args", [])) == 1:
+            r = strip(a["args"][0])
+            return isinstance(r, dict) and r.get("k") == "Ref" and r.get("d") == d
+        return False
+
+    def v(n):
+        if n.get("k") in ("Construct", "New") :
+            args = n.get("args") or ([n.get("init")] if isinstance(n.get("init"), dict) else [])
+            for a in args:
+                if whole(a) or (isinstance(strip(a), dict) and strip(a).get("k") == "Construct" and any(whole(x) for x in strip(a).get("args", []))):
+                    hit[0] = True
+        if n.get("k") in ("Assign", "OpCall") and n.get("op") == "=":
+            r = n.get("r") if n.get("k") == "Assign" else (n.get("args") or [None, None])[1]
+            if r is not None and whole(r):
+                hit[0] = True
+        if n.get("k") == "Call":
+            for i, a in enumerate(n.get("args", [])):
+                if whole(a):
+                    inner = _BY_PAT.get(n.get("cpat"))
+                    if inner is None or _consumes(inner, i, depth + 1):
+                        hit[0] = True
+    walk(cal["body"], v)
+    return hit[0]
+
+
 def use_after_move_nodes(fn):
     out = []
     for b in _blocks(fn.get("body"), []):
@@ -93,10 +131,16 @@ def use_after_move_nodes(fn):
             moved = []
 
             def mv(n):
-                if n.get("k") == "Call" and n.get("cname") in ("move", "forward") and (n.get("callee") or "").startswith("std::") and len(n.get("args", [])) == 1:
-                    a = strip(n["args"][0])
-                    if isinstance(a, dict) and a.get("k") == "Ref" and a.get("dk") in ("param", "local"):
-                        moved.append(a)
+                # the move / forward must be an argument of something that takes the whole object over
+                if n.get("k") in ("Call", "Construct"):
+                    for i, arg in enumerate(n.get("args", [])):
+                        a0 = strip(arg)
+                        if isinstance(a0, dict) and a0.get("k") == "Call" and a0.get("cname") in ("move", "forward") and (a0.get("callee") or "").startswith("std::") and len(a0.get("args", [])) == 1:
+                            a = strip(a0["args"][0])
+                            if isinstance(a, dict) and a.get("k") == "Ref" and a.get("dk") in ("param", "local"):
+                                cal = _BY_PAT.get(n.get("cpat")) if n.get("k") == "Call" else None
+                                if n.get("k") == "Construct" or cal is None or _consumes(cal, i):
+                                    moved.append(a)
             walk(s, mv)
             for m in moved:
                 for s2 in st[i + 1:]:
@@ -189,6 +233,8 @@ def twin_initialiser_nodes(fn):
 
 def hazards(facts, fams=None):
     fns = functions_by(facts)
+    _BY_PAT.clear()
+    _BY_PAT.update({f["pat"]: f for f in fns.values()})
     exc = _exc()
     out = []
     scanned = 0
